@@ -3,11 +3,13 @@ package checks
 import (
 	"crypto/sha512"
 	"encoding/binary"
+	"crypto/x509"
 	"fmt"
 	"math/big"
 	"os"
 	"path/filepath"
 	"strings"
+	"time"
 
 	"github.com/google/go-eventlog/extract"
 	"github.com/google/go-eventlog/proto/state"
@@ -277,6 +279,40 @@ func c18Run(r *core.Run) {
 		}
 		r.Fault("gate:verification:"+vf.name, true)
 		r.State("verify-gate %s", vf.name)
+		r.EndItem()
+	}
+	// --- the repository's genuine sample quote (Intel-rooted) with its own event log, presented to a caller
+	// whose pool lists only a private root: Intel's root is not in that pool, the gate fails
+	if r.Item("verify-gate:intel-sample-under-private-pool") {
+		at := time.Date(2025, 1, 1, 0, 0, 0, 0, time.UTC)
+		ts := [5]time.Time{at, at, at, at, at}
+		ccel0, _ := os.ReadFile(filepath.Join(dir, "ccel_data.dat"))
+		m, perr := parseMsg(sample)
+		if perr == nil {
+			run := func(pool *x509.CertPool) (*state.FirmwareLogState, core.Outcome) {
+				var st *state.FirmwareLogState
+				out := core.Call(func() error {
+					var err error
+					st, err = rtmr.ParseCcelWithTdQuote(ccel0, table, m, &rtmr.ParseTdxCcelOpts{Validation: &validate.Options{}, Verification: mkOpts(O0, &failGetter{}, pool, ts), ExtractOpt: extract.Opts{Loader: extract.GRUB}})
+					return err
+				})
+				return st, out
+			}
+			if st, o := run(nil); o.Err != nil || st == nil {
+				r.Count("control_failed(intel sample under the embedded root)", 1)
+			} else {
+				private := world.Pool(w.A.Root)
+				before := private.Clone()
+				st, o := run(private)
+				judge("verify-gate:intel-sample-under-private-pool", "verification-gate:intel-sample-under-private-pool", true, "the quote chains to Intel's root, which the caller's pool does not list", st, o)
+				if !private.Equal(before) {
+					r.Violate("C18:callers-pool-modified", "after the call the caller's TrustedRoots pool no longer holds what the caller put there (and only that)")
+				}
+				r.Probe("intel_sample_under_private_pool")
+			}
+		}
+		r.Fault("gate:verification:intel-sample-under-private-pool", true)
+		r.State("verify-gate intel-sample-under-private-pool")
 		r.EndItem()
 	}
 	// --- verification gate fails because of what the collateral says
@@ -572,6 +608,6 @@ func init() {
 			return 12
 		},
 		Run:       c18Run,
-		MustProbe: []string{"honest_combination_returns_state", "measured_rtmr_bitflip_resigned", "log_digest_bitflip", "log_extended_with_rtmr3_event", "rtmr3_measured_bitflip", "failing_gate_with_other_event_logs", "calls_through_one_long_lived_options_value"},
+		MustProbe: []string{"honest_combination_returns_state", "measured_rtmr_bitflip_resigned", "log_digest_bitflip", "log_extended_with_rtmr3_event", "rtmr3_measured_bitflip", "failing_gate_with_other_event_logs", "calls_through_one_long_lived_options_value", "intel_sample_under_private_pool"},
 	})
 }
